@@ -500,13 +500,29 @@ def r55(ctx: Ctx) -> RuleReport:
     pm = ctx.repo.parent_map(fi.node)
     incs = [n for n in walk_local(fi.node) if isinstance(n, ast.AugAssign) and isinstance(n.op, ast.Add) and try_fold(n.value) == (True, 1)
             and isinstance(n.target, ast.Subscript)]
+    # the same count written without a defaultdict:  d[k] = d.get(k, 0) + 1   and, for a dict that is still empty,  d[top] = 1
+    plain = {}
+    for n in walk_local(fi.node):
+        if isinstance(n, ast.Assign) and len(n.targets) == 1 and isinstance(n.targets[0], ast.Subscript) and isinstance(n.targets[0].value, ast.Name):
+            d_, k_ = n.targets[0].value.id, norm(n.targets[0].slice)
+            v_ = n.value
+            if isinstance(v_, ast.BinOp) and isinstance(v_.op, ast.Add) and try_fold(v_.right) == (True, 1) and isinstance(v_.left, ast.Call) \
+                    and norm(v_.left.func) == f'{d_}.get' and len(v_.left.args) == 2 and norm(v_.left.args[0]) == k_ and try_fold(v_.left.args[1]) == (True, 0):
+                plain[id(n)] = n
+            elif try_fold(v_) == (True, 1) and 'top' in k_ and not any(isinstance(a, ast.For) for a in _anc(pm, n)):
+                empties = [x for x in ctx.cg.local_assigns(fi).get(d_, []) if isinstance(x, ast.Dict) and not x.keys]
+                if empties:
+                    plain[id(n)] = n
+    incs = incs + list(plain.values())
     loop_incs = []
     top_inc = None
+    def _tgt(n):
+        return n.target if isinstance(n, ast.AugAssign) else n.targets[0]
     for n in incs:
         in_loop = any(isinstance(a, ast.For) for a in _anc(pm, n))
         if in_loop:
             loop_incs.append(n)
-        elif 'top' in norm(n.target.slice):
+        elif 'top' in norm(_tgt(n).slice):
             top_inc = n
     rep.add('penman.graph:Graph.reentrancies: the top has one implicit entrancy', fi.loc(), 'ok' if top_inc is not None else 'undecided')
     if not loop_incs:
@@ -547,7 +563,8 @@ def r55(ctx: Ctx) -> RuleReport:
     if it == 'self.edges()':
         rep.ok(key, fi.loc(loop), 'self.edges()')
         tv = loop.target.id if isinstance(loop.target, ast.Name) else None
-        good = norm(inc.target.slice) in (f'{tv}.target', f'{tv}[2]')
+        names3 = [norm(e) for e in loop.target.elts] if isinstance(loop.target, ast.Tuple) and len(loop.target.elts) == 3 else []
+        good = norm(_tgt(inc).slice) in (f'{tv}.target', f'{tv}[2]') or (names3 and norm(_tgt(inc).slice) == names3[2])
         rep.add('penman.graph:Graph.reentrancies: the target of the edge is counted', fi.loc(inc), 'ok' if good else 'undecided', norm(inc))
     elif it == 'self.triples':
         # a hand-written filter: it must be the edges predicate
@@ -1282,8 +1299,22 @@ def r73(ctx: Ctx) -> RuleReport:
                         rd_ = _r73_rd.setdefault(fi.fq, _rdefs(cfg_, fi.params))
                         cn_ = owner_node(cfg_, pm_, call)
                         held = []
+                        # a call in the iterable of a `for` is evaluated once, before the loop: what the body binds does not reach it
+                        enclosing_for = None
+                        q_ = call
+                        while id(q_) in pm_:
+                            par_ = pm_[id(q_)]
+                            if isinstance(par_, (ast.For, ast.AsyncFor)) and par_.iter is q_:
+                                enclosing_for = par_
+                                break
+                            if isinstance(par_, ast.stmt):
+                                break
+                            q_ = par_
+                        inside = set()
+                        if enclosing_for is not None:
+                            inside = {cfg_.stmt_node[id(x)] for x in ast.walk(enclosing_for) if id(x) in cfg_.stmt_node}
                         for p in missing:
-                            defs_ = set(rd_.get(cn_, {}).get(p, ())) - {cn_}
+                            defs_ = set(rd_.get(cn_, {}).get(p, ())) - {cn_} - inside
                             if defs_:
                                 held.append(p)
                         missing = held
@@ -1891,6 +1922,16 @@ def r84(ctx: Ctx) -> RuleReport:
                 key = f'{fi.fq}: every marker of a triple is examined'
                 fixed = [n for n in ast.walk(scope) if isinstance(n, ast.Subscript) and norm(n.value) == mv and not isinstance(n.slice, ast.Slice)]
                 scans = [n for n in ast.walk(scope) if isinstance(n, (ast.For, ast.comprehension)) and norm(n.iter) == mv]
+                # ... or over a helper generator that walks its first argument completely: for m in helper(markers, ...)
+                for n in ast.walk(scope):
+                    if isinstance(n, (ast.For, ast.comprehension)) and isinstance(n.iter, ast.Call) and n.iter.args and norm(n.iter.args[0]) == mv:
+                        hs = [t.func for t in ctx.cg.resolve_call(n.iter, fi) if t.kind == 'func']
+                        if len(hs) == 1 and hs[0].positional:
+                            hp = hs[0].positional[0]
+                            hloops = [x for x in walk_local(hs[0].node) if isinstance(x, ast.For) and norm(x.iter) == hp]
+                            if len(hloops) == 1 and any(isinstance(y, ast.Yield) for y in ast.walk(hloops[0])) \
+                                    and not [y for y in ast.walk(hloops[0]) if isinstance(y, (ast.Break, ast.Return))]:
+                                scans.append(n)
                 early = [b for sc in scans if isinstance(sc, ast.For) for b in ast.walk(sc) if isinstance(b, ast.Break)]
                 if fixed and not scans:
                     rep.violation(key, fi.loc(fixed[0]), f'only `{norm(fixed[0])}` is looked at: the marker list of a triple has no fixed layout (a branch such as '
